@@ -895,8 +895,13 @@ def run_conc(seed, cfg_tcp: bool, pop_ops, mk, gate=None, until="stopped", polic
         before_ids = [m._c12_id for m in rec.mgrs if getattr(m, "_c12_thread", None) is not None and not _done(m._c12_thread)]
         relc0 = dict(rec.rel_count)
         res = {}
-        pred = {"collected": lambda: REC.flags.get("stop_unreg_seen") or REC.flags.get("stop_done"),
-                "stopped": lambda: REC.flags.get("stop_done")}[until]
+        def main_waits_for_lock():
+            # a parked maker may hold the object-map lock (the handler is registered inside the locked block): it moves on
+            # as soon as stop() is blocked on a lock - parking it longer would be a wait cycle made by the harness
+            m = w.sched.main
+            return m.blocked_on is not None and m.label.startswith("lock.acquire") and not m.blocked_on()
+        pred = {"collected": lambda: REC.flags.get("stop_unreg_seen") or REC.flags.get("stop_done") or main_waits_for_lock(),
+                "stopped": lambda: REC.flags.get("stop_done") or main_waits_for_lock()}[until]
         if gate is not None and gate != "start":
             REC.gate = (gate, pred)
 
@@ -1318,9 +1323,7 @@ def oracle_history(tr: Trace):
             elif stopped:
                 if out != "exc:QMI_UsageException" or not same:
                     flag("restart-not-refused", f"start() of a stopped context: {out}", i)
-            elif failed_start:
-                pass            # retrying the same object is not covered by the statement; the probe decides
-            else:
+            else:               # never active so far: a fresh context, or one whose earlier start() failed
                 fk = "tcp" if (op[1] and ob["state"] and tr.lines[0] == "new 1") else ("udp" if op[2] else None)
                 if fk:
                     failed_start = fk
@@ -1329,7 +1332,10 @@ def oracle_history(tr: Trace):
                     if not same:
                         flag(f"failed-start-residue:context:{fk}", f"start() failed ({out}); before: {prev} after: {st}", i)
                 elif out == "ok":
-                    active = True
+                    active, failed_start = True, None
+                elif failed_start:
+                    flag(f"cannot-start-again:context:retry-after-{failed_start}",
+                         f"start() of the same context after a failed start ({failed_start}), fault gone: {out}", i)
                 else:
                     flag("start-fails", f"fault-free first start(): {out}", i)
         elif k == "stop":
